@@ -185,7 +185,10 @@ def main():
                    harness_error=True)
     finally:
         shutil.rmtree(tmp, ignore_errors=True)
-    print('REPLAY-RESULT ' + json.dumps(out, default=str))
+    # (a handler may leave a blocked thread inside redirect_stdout: write to the real stdout)
+    sys.__stdout__.write('REPLAY-RESULT ' + json.dumps(out, default=str) + '\n')
+    sys.__stdout__.flush()
+    os._exit(0)
 
 
 if __name__ == '__main__':
